@@ -47,6 +47,12 @@ CLAIMED = {
  "C24": ("exploration", "read/open log of the instrumented DataStore vs. pruning recomputed from the real filter bits",
          "For each query, files whose file-level filters rule out the bloom tree must not be opened, row data of blocks ruled out by prefilter or block filters must not be read, condition-less queries must not touch a filter region, and every read must lie inside the file and the declared extents.",
          "Only the bloom tree (not the regex guard) defines 'ruled out'; trees with unknown node kinds carry no verdict.", "6/C24"),
+ "C05": ("exploration", "exactly-once ledger over done channels under concurrent producers, Start/Stop races, PRNG store faults and schedule-point delays, with the race detector",
+         "Histories of 2-24 concurrent producers (all batch and done-channel kinds, Flush callers) with Start early/late/twice/never, Stop racing with them, queries and merges alongside and flush-path store failures: after Stop returned nil every accepted batch has exactly one answer, refused batches have none, every Flush call has returned, both workers have exited. Stuck detector for bounded progress.",
+         "'Keeps receiving' = receiver parked before the call; callers use context timeouts on a never-started engine.", "6/C05"),
+ "C06": ("fault_enumeration", "store-call fault enumeration over recorded sequential histories; answers compared with queries on this and a fresh engine",
+         "Every single flush-path store-call position of each explored history (CreateFile, every Write, Close pre- and post-effect, Update) is failed in turn, then every cleanup call (Abort/TombstoneFile/Close) the failure provoked, plus PRNG pairs; after every Flush and at the end: nil answer => rows visible exactly once on this and a fresh engine, error answer => never visible, unmarshalable batch => error and no trace, no batch unanswered or answered twice.",
+         "Exhaustive over single positions of the explored histories; histories themselves are sampled. MetaStore.Update atomic (MemoryMetaStore behind the wrapper).", "6/C06"),
 }
 
 NOT_YET = "check not built yet in this session (design in DESIGN.md section 6); not claimed until its monitor exists and is silent on the unchanged tree"
